@@ -265,9 +265,27 @@ def run(ctx):
             sio = io.StringIO()
             attrs = [{"name": "curv", "values": np.arange(n, dtype="float32") / 3},
                      {"name": "rgb", "values": np.arange(3 * n, dtype="float32").reshape(n, 3)}][:rng.randrange(0, 3)]
+            vtitle = rng.choice(["t", "", "two words", "x" * 300, "dots. and: colons"])
             try:
-                mesh_mod.save_mesh_as_neuroglancer_vtk(sio, pts, tri, vertex_attributes=attrs, title="t")
-                p2, tr2, at2 = parse_vtk(sio.getvalue())
+                mesh_mod.save_mesh_as_neuroglancer_vtk(sio, pts, tri, vertex_attributes=attrs, title=vtitle)
+                # Lean writer model (numbers formatted like np.savetxt does: '%.9g' of the float32 value, '%d') and the
+                # Lean recogniser on the REAL text
+                import neuroglancer_scripts as _ns
+                real_txt = sio.getvalue()
+                f32 = lambda a: [["%.9g" % float(v) for v in row] for row in np.asarray(a, dtype="float32").reshape(len(a), -1)]  # noqa
+                rows = lambda rr: ";".join(",".join(r) for r in rr) if len(rr) else "-"  # noqa
+                areq = "/".join("%s:%d:%s" % (a["name"], np.asarray(a["values"]).reshape(n, -1).shape[1],
+                                               rows(f32(np.asarray(a["values"]).reshape(n, -1)))) for a in attrs) or "-"
+                if n > 0 or not attrs:
+                    reqs.append("vtk-write %s %s %s %s %s" % (
+                        core.hexs(vtitle.encode()), core.hexs(_ns.__version__.encode()), rows(f32(pts)),
+                        rows([[str(int(v)) for v in t] for t in tri]), areq))
+                    meta.append(("vtk-write", {"title": vtitle[:20], "vertices": n, "triangles": len(tri), "attrs": len(attrs)},
+                                 core.hexs(real_txt.encode()) + " 1"))
+                reqs.append("vtk-accepts " + core.hexs(real_txt.encode()))
+                meta.append(("vtk-accepts", {"title": vtitle[:20], "vertices": n, "triangles": len(tri), "attrs": len(attrs),
+                                             "text": real_txt[:300]}, "1"))
+                p2, tr2, at2 = parse_vtk(real_txt)
                 ok = np.array_equal(np.array(p2, dtype="float32").reshape(-1, 3), pts) and tr2 == tri.tolist() \
                     and all(np.array_equal(np.array(at2[a["name"]], dtype="float32").reshape(n, -1),
                                            np.asarray(a["values"], dtype="float32").reshape(n, -1)) for a in attrs)
@@ -316,7 +334,12 @@ def run(ctx):
             shutil.rmtree(tmp, ignore_errors=True)
     if ctx.driver_ok and reqs:
         for rep, (kind, desc, want) in zip(core.driver_batch(reqs), meta):
-            if rep != want:
+            if kind == "vtk-accepts":
+                ctx.bump("vtk_files_recognised")
+                if rep != "1":
+                    ctx.oracle_fail("the VTK export is not accepted by the Lean recogniser of the subset grammar "
+                                    "Neuroglancer parses", desc)
+            elif rep != want:
                 ctx.corr_mismatch("mesh-" + kind, desc, want[:200], rep[:200])
 
 
